@@ -18,7 +18,7 @@ func init() {
 		Run: c09,
 		Explanation: "Decides filtering, gating and provenance of connection secrets: (R9.1) both publishers store a key only on the 'filter empty or key allowed' edge, with the filter map built from every element of the configured filter; (R9.2) nothing is written unless the owner asks for a secret; (R9.3) the XR secret Apply carries ConnectionSecretMustBeControllableBy(owner UID) and an AllowUpdateIf whose comparison is on .Data with empty/nil treated equal; " +
 			"(R9.4) every publisher built by the XRD controller gets d.GetConnectionSecretKeys(); (R9.5) the details published are res.ConnectionDetails of this reconcile's Compose; (R9.6) the claim secret is written only on the edge where the fetched source secret's controller UID equals the XR's, its data is exactly the source's, guarded and no-op-suppressed, and nothing happens when either side has no secret reference; " +
-			"(R9.7) extraction dispatches on every ConnectionDetailType and dereferences its optional pointers only after their nil test. R9.3 also requires that the no-op comparison has the current object on one side and the desired one on the other; R9.8 also requires that ExtractConnection reads the composed resource whose secret was fetched in the same iteration. (R9.9) fromFieldPath returns a value with a nil error only behind the unfiltered success edge of a field read.",
+			"(R9.7) extraction dispatches on every ConnectionDetailType and dereferences its optional pointers only after their nil test. R9.3 also requires that the no-op comparison has the current object on one side and the desired one on the other; R9.8 also requires that ExtractConnection reads the composed resource whose secret was fetched in the same iteration. (R9.9) fromFieldPath returns a value with a nil error only behind the unfiltered success edge of a field read. R9.1 also requires that the allow map is filled before it is consulted.",
 		NotDecided:  []string{"value-level correctness of extraction", "contents of pre-existing secrets", "API-side apply semantics"},
 		Assumptions: []string{"the runtime Applicator honours its options", "cmp.Equal with cmpopts.EquateEmpty compares nil and empty maps as equal"},
 	})
